@@ -268,7 +268,7 @@ def _abstract_trig(sym):
         trig.ENABLED = True
         _bsv.np = _NpShim()
     sym.B.update(dict(prove_order='z3', prove_timeout=300, prove_z3_timeout=15, prove_identity_first=False,
-                      prove_relevance=True, prove_relevance_hops=(1, 2, 3), prove_relevance_timeout=10))
+                      prove_relevance=True, prove_relevance_hops=(1, 2, 3), prove_relevance_timeout=10, cex_margin=0.01))
 
 
 def _angle(sym, name, lim=FOV_ANGLE):
